@@ -436,6 +436,9 @@ func c11ConcurrentBody(pr [2]c11Build, solo [2]string, x *xplore.Ctx, viol func(
 		runtime.GC()
 	}
 	s.OnOpen, s.OnWrite, s.OnCommit = nil, nil, nil
+	if sc.outside() {
+		return "unmodelled"
+	}
 	if sc.deadlock != "" {
 		viol("deadlock concurrent-builds", desc+": "+sc.deadlock)
 	}
@@ -467,6 +470,8 @@ func c11Concurrent(r *core.Run) { concurrentBuilds(r, func([2]c11Build) bool { r
 // concurrentBuilds: the shared "two interleaved builds" exploration (used by
 // C07, C10 and C11 with their own pair filters).
 func concurrentBuilds(r *core.Run, want func(pr [2]c11Build) bool) {
+	schedCapRun = r.Cap
+	noteDegraded(r)
 	var execs int64
 	for _, pr := range c11Pairs() {
 		pr := pr
